@@ -85,9 +85,10 @@ class RoundTrip(Obligation):
             return b.struct('Inspection',typ=mk_string('inspection'),name=self.S(run,'name','i0'),expected_materials=VecO([]),expected_products=VecO([b.rule('Disallow','*')]),run=b.command(['sh','-c',]))
         if w=='signature': return b.signature(pool_keyid(0),value=[z3.BitVec('s0',8),7])
         if w=='pubkey':
-            algs=[some(VecO([mk_string('sha256'),mk_string('sha512')])),none()][run.pick(2,'algs')]
+            ak=run.pick(4,'algs')
+            algs=[some(VecO([mk_string('sha256'),mk_string('sha512')])),none(),some(VecO([])),some(VecO([mk_string('sha512'),mk_string('sha256')]))][ak]
             pub=bytes(FIXTURE_ED25519_PUB)
-            kid=ed25519_keyid(pub) if algs.vname=='Some' else ed25519_keyid_noalgs(pub)
+            kid=[ed25519_keyid(pub),ed25519_keyid_noalgs(pub),ed25519_keyid(pub,()),ed25519_keyid(pub,('sha512','sha256'))][ak]
             k=b.struct('PublicKey',typ=b.variant('KeyType','Ed25519'),key_id=b.keyid(kid),scheme=b.variant('SignatureScheme','Ed25519'),keyid_hash_algorithms=algs,value=Agg('PublicKeyValue',[u8vec(list(pub))]))
             return k
         if w=='link':
@@ -116,7 +117,7 @@ class RoundTrip(Obligation):
                 t1=[none(),some(ts(1700000000)),some(ts(1700000000,3600))][k-1]
                 return some(b.struct('ProvenanceMetadata',build_invocation_id=[none(),some(self.S(run,'inv','id'))][run.pick(2,'inv')],build_started_on=t1,build_finished_on=none(),
                                      completeness=[none(),some(b.struct('Completeness',arguments=some(Bool(z3.Bool('c_arg'))),environment=none(),materials=none()))][run.pick(2,'compl')],reproducible=none()))
-            def mats(): return [none(),some(VecO([b.struct('Material',uri=some(uri('git+x')),digest=some(b.hashmap([(mk_string('sha1'),mk_string('ab'))])))]))][run.pick(2,'mats')]
+            def mats(): return [none(),some(VecO([b.struct('Material',uri=some(uri('git+x')),digest=some(b.hashmap([(mk_string('sha1'),mk_string('ab'))])))])),some(VecO([]))][run.pick(3,'mats')]
             def slsa1(): return b.struct('SLSAProvenanceV01',builder=b.struct('Builder',id=uri(self.S(run,'bid','b'))),
                                          recipe=[none(),some(b.struct('Recipe',typ=uri('t'),defined_in_material=some(Int(64,False,z3.BitVec('dim',64))),entry_point=none(),arguments=none(),environment=none()))][run.pick(2,'recipe')],metadata=meta(),materials=mats())
             def slsa2(): return b.struct('SLSAProvenanceV02',builder=b.struct('Builder',id=uri('b')),build_type=uri(self.S(run,'bt','t')),
